@@ -19,6 +19,11 @@ if not os.path.isdir(WT):
     subprocess.run(["git", "-C", "/repo", "worktree", "add", "--detach", WT, "HEAD"], check=True, capture_output=True)
 subprocess.run(["git", "-C", WT, "checkout", "-q", "--detach", subprocess.run(["git", "-C", "/repo", "rev-parse", "HEAD"], capture_output=True, text=True).stdout.strip()], check=True)
 subprocess.run(["git", "-C", WT, "checkout", "--", "."], check=True)
+# the compiled C++ spec reader is build output (ignored by git): without it the worktree falls back to the slow reader
+_so = "src/fandango/language/parser/sa_fandango_cpp_parser.so"
+if os.path.exists("/repo/" + _so) and not os.path.exists(os.path.join(WT, _so)):
+    import shutil as _sh
+    _sh.copy2("/repo/" + _so, os.path.join(WT, _so))
 r = subprocess.run(["git", "-C", WT, "apply", os.path.abspath(patch)], capture_output=True, text=True)
 if r.returncode:
     sys.exit("patch does not apply: " + r.stderr)
